@@ -24,6 +24,13 @@ package drpcserver
 //@   requires tr != nil && ctx != nil && s.handler != nil && s.opts.Manager.WriterBufferSize >= 0 && s.opts.Manager.WriterBufferSize <= 1073741824
 //@   modifies *
 //@   loop 1 invariant [s] s == s0 && ctx != nil && man != nil && man.wr != nil && man.wr.w != nil && man.tr != nil && s.handler != nil
+//@   ghost entry herr = nil
+//@   ghost after:(*Server).handleRPC herr = ret
+//@   ghost entry nsErr = nil
+//@   ghost after:(*Manager).NewServerStream nsErr = ret2
+//@   loop 1 step [C10.next-rpc-only-after-success] herr == nil && nsErr == nil
+//@   site (*Server).handleRPC assert [C10.serves-the-new-stream] nsErr == nil
+//@   check [C05,C12.returns-only-on-failure] nsErr != nil || herr != nil
 //@   check [C12.closes-manager] eventCount("call:(*Manager).Close") == 1
 //@   check [C12.clears-cache]   eventCount("call:(*Cache).Clear") == 1
 
@@ -34,6 +41,13 @@ package drpcserver
 //@   requires lis != nil && ctx != nil
 //@   modifies *
 //@   loop 1 invariant [s] s == s0 && lis == lis0 && tracker != nil && ctx == ctx0
+//@   ghost entry aerr = nil
+//@   ghost after:Accept aerr = ret1
+//@   ghost entry cerr = nil
+//@   ghost after:Err cerr = ret
+//@   ghost entry temp = false
+//@   ghost after:isTemporary temp = ret
+//@   check [C12.listener-error-reported] eventCount("call:isTemporary") == 1 && !temp ==> err != nil
 //@   check [C12.cancel-then-wait] eventCount("call:(*Tracker).Cancel") == 1 && eventCount("call:(*Tracker).Wait") == 1 && eventAfterLast("call:(*Tracker).Cancel", "call:(*Tracker).Wait")
 //@   loop 1 step [C12.every-conn-tracked] eventAfterLast("invoke:Accept", "call:(*Tracker).Run") || eventAfterLast("invoke:Accept", "select:")
 
@@ -51,3 +65,10 @@ package drpcserver
 //@ func isTemporary
 //@   props C12
 //@   trusted "classifies an error with errors.As and net.Error.Temporary; only selects whether Serve retries Accept or returns"
+
+// the goroutine that closes the listener once the server's context is cancelled
+//@ func (*Server).Serve$1
+//@   props C12
+//@   requires lis != nil && ctx != nil
+//@   modifies *
+//@   check [C12.closes-listener-on-cancel] eventCount("recv") == 1 && eventCount("invoke:Close") == 1 && eventAfterLast("recv", "invoke:Close")
